@@ -51,6 +51,7 @@ type Group struct {
 	Backends  map[string]int
 	Seconds   float64
 	Taint     bool
+	Cover     bool
 }
 
 func loadLibrary() (*Library, error) {
@@ -115,6 +116,15 @@ func groupObligations(frs []*FuncResult) []*Group {
 			if o.Taint {
 				g.Taint = true
 			}
+			if o.Cover {
+				// reachable unless proved unreachable; the group holds if some instance is reachable
+				g.Cover = true
+				if o.Result != "unsat" {
+					g.Discharged++
+					g.Backends[o.Backend]++
+				}
+				continue
+			}
 			if o.Result == "unsat" {
 				g.Discharged++
 				g.Backends[o.Backend]++
@@ -125,7 +135,12 @@ func groupObligations(frs []*FuncResult) []*Group {
 	}
 	var out []*Group
 	for _, id := range order {
-		out = append(out, m[id])
+		g := m[id]
+		if g.Cover && g.Discharged == 0 {
+			// every return path is unreachable: the contract is vacuous
+			g.Failed = append(g.Failed, &Obligation{Fn: g.ID, Label: "cover", Kind: "cover", Result: "vacuous", Output: "no return of the function is reachable under its preconditions and assumed contracts"})
+		}
+		out = append(out, g)
 	}
 	return out
 }
@@ -165,7 +180,11 @@ func cmdVerify(args []string) {
 				bad++
 			}
 			fmt.Printf("   %-7s %-60s %d/%d %.2fs %v\n", status, g.ID, g.Discharged, g.Instances, g.Seconds, g.Backends)
-			for _, o := range g.Failed {
+			for i, o := range g.Failed {
+				if i >= 3 {
+					fmt.Printf("           ... %d more\n", len(g.Failed)-3)
+					break
+				}
 				fmt.Printf("           %s at %s path %s (%s via %s)\n", o.Result, o.Pos, o.Path, firstLine(o.Output), o.Backend)
 			}
 		}
